@@ -1,3 +1,960 @@
-From Coq Require Import ZArith List Lia.
-From PV Require Import C17.C17_Model.
-Lemma placeholder : True. Proof. exact I. Qed.
+(* C17_Proofs.v — the sequential read path: a read through the cache returns the source's bytes. *)
+From Coq Require Import ZArith List Lia Bool.
+From PV Require Import C17.C17_Model C17.C17_Lists C17.C17_RM_Proofs.
+Import ListNotations.
+Local Open Scope Z_scope.
+
+Definition AllOk (l : list outcome) : Prop := Forall (fun o => o = OOk) l.
+
+Lemma pop_allok l : AllOk l -> fst (pop l) = OOk /\ AllOk (snd (pop l)).
+Proof.
+  intros H. destruct l as [| o t]; simpl; [split; [reflexivity | constructor] |].
+  inversion H; subst. split; [reflexivity | assumption].
+Qed.
+
+Section ReadProofs.
+  Variable src : list Z.
+  Variable cfg : config.
+  Hypothesis Hpage : 1 <= c_page cfg.
+  Hypothesis Hunit : 1 <= c_unit cfg.
+  Let S := zlen src.
+
+  (* CacheConsistent: every byte the store believes cached is inside the media file, below the
+     size the store knows, and equals the source byte *)
+  Definition Consistent (st : store) : Prop :=
+    forall x, covers (s_filled st) x ->
+      0 <= x < zlen (s_media st) /\ x < s_actual st /\ getz (s_media st) x = getz src x.
+
+  Definition Inv (st : store) : Prop :=
+    WF (s_filled st) /\ Consistent st /\ 0 <= s_actual st <= S
+    /\ (s_actual st mod c_page cfg <> 0 -> s_actual st = S).
+
+  (* a buffer of refilled data waiting to be written: source bytes of a range inside the size *)
+  Definition GoodData (st : store) (off : Z) (data : list Z) : Prop :=
+    0 <= off /\ off + zlen data <= s_actual st
+    /\ forall i, 0 <= i < zlen data -> getz data i = getz src (off + i).
+
+  Definition PG (w : world) : Prop :=
+    forall off data, In (off, data) (w_pending w) -> GoodData (w_st w) off data.
+
+  (* ---------------------------------------------------------------- media write *)
+  Definition wret (o : outcome) (len : Z) : Z :=
+    match o with OOk => len | OShort n => Z.min (Z.max 0 n) len | OFail => -1 end.
+
+  Lemma do_pwritev2_fields w off data :
+    let w' := snd (do_pwritev2 w off data) in
+    let st := w_st w in
+    let m1 := if s_td st then s_media st else resize (s_media st) (s_actual st) in
+    let ret := wret (fst (pop (w_wor w))) (zlen data) in
+    w_st w' = mkStore (s_actual st)
+                (if 0 <? ret then addRange (s_filled st) off (off + ret) else s_filled st)
+                (if 0 <? ret then media_write m1 off (firstn (Z.to_nat ret) data) else m1)
+                true (s_refilling st)
+    /\ w_sor w' = w_sor w /\ w_ubuf w' = w_ubuf w /\ w_held w' = w_held w /\ w_pending w' = w_pending w.
+  Proof.
+    unfold do_pwritev2, wret. destruct (s_td (w_st w)); destruct (pop (w_wor w)) as [o rest]; cbn; repeat split; reflexivity.
+  Qed.
+
+  Lemma do_pwritev2_spec w off data :
+    Inv (w_st w) -> GoodData (w_st w) off data ->
+    let w' := snd (do_pwritev2 w off data) in
+    Inv (w_st w') /\ s_actual (w_st w') = s_actual (w_st w) /\ s_refilling (w_st w') = s_refilling (w_st w)
+    /\ w_sor w' = w_sor w /\ w_ubuf w' = w_ubuf w /\ w_held w' = w_held w /\ w_pending w' = w_pending w.
+  Proof.
+    intros (Hwf & Hcons & Hact & Hpg) (Hoff & Hfit & Hdata).
+    destruct (do_pwritev2_fields w off data) as (Hst & Hsor & Hub & Hheld & Hpend).
+    cbv zeta. rewrite Hst, Hsor, Hub, Hheld, Hpend. cbn [s_actual s_refilling].
+    split; [| repeat split; reflexivity].
+    set (st := w_st w) in *.
+    set (m1 := if s_td st then s_media st else resize (s_media st) (s_actual st)).
+    set (ret := wret (fst (pop (w_wor w))) (zlen data)).
+    assert (Hm1 : forall y, covers (s_filled st) y -> 0 <= y < zlen m1 /\ getz m1 y = getz src y).
+    { intros y Hy. destruct (Hcons y Hy) as (H1 & H2 & H3). unfold m1. destruct (s_td st); [tauto |].
+      rewrite zlen_resize by lia. rewrite getz_resize by lia. tauto. }
+    assert (Hret : ret <= zlen data).
+    { unfold ret, wret. destruct (fst (pop (w_wor w))); pose proof (zlen_nonneg data); lia. }
+    unfold Inv. cbn [s_filled s_media s_actual].
+    destruct (Z.ltb_spec 0 ret) as [Hpos | Hpos].
+    - destruct (addRange_spec (s_filled st) off (off + ret) Hwf ltac:(lia)) as [Hwf' Hcov'].
+      split; [exact Hwf' |]. split; [| split; [lia | exact Hpg]].
+      intros y Hy. cbn [s_filled s_media s_actual] in *. apply Hcov' in Hy.
+      assert (Hzl : zlen (firstn (Z.to_nat ret) data) = ret) by (rewrite firstn_is_slice; apply zlen_slice; lia).
+      assert (Hy0 : 0 <= y) by (destruct Hy as [Hy | Hy]; [destruct (Hm1 y Hy); lia | lia]).
+      rewrite zlen_media_write by lia. rewrite getz_media_write by lia. rewrite Hzl.
+      destruct (Z.leb_spec off y) as [Ha | Ha]; destruct (Z.ltb_spec y (off + ret)) as [Hb | Hb]; cbn [andb].
+      + split; [lia |]. split; [lia |]. rewrite firstn_is_slice, getz_slice by lia. rewrite Hdata by lia. f_equal. lia.
+      + destruct Hy as [Hy | Hy]; [| lia]. destruct (Hm1 y Hy) as [Hr Hg]. destruct (Hcons y Hy) as (H1 & H2 & H3).
+        split; [lia |]. split; [lia | exact Hg].
+      + destruct Hy as [Hy | Hy]; [| lia]. destruct (Hm1 y Hy) as [Hr Hg]. destruct (Hcons y Hy) as (H1 & H2 & H3).
+        split; [lia |]. split; [lia | exact Hg].
+      + destruct Hy as [Hy | Hy]; [| lia]. destruct (Hm1 y Hy) as [Hr Hg]. destruct (Hcons y Hy) as (H1 & H2 & H3).
+        split; [lia |]. split; [lia | exact Hg].
+    - split; [exact Hwf |]. split; [| split; [lia | exact Hpg]].
+      intros y Hy. cbn [s_filled s_media s_actual] in *. destruct (Hm1 y Hy) as [Hr Hg]. destruct (Hcons y Hy) as (H1 & H2 & H3).
+      split; [lia |]. split; [lia | exact Hg].
+  Qed.
+
+  (* ---------------------------------------------------------------- source read *)
+  Lemma src_pread_spec w off len :
+    0 <= off -> 0 <= len ->
+    match src_pread src w off len with
+    | (ret, data, w') =>
+        w_st w' = w_st w /\ w_ubuf w' = w_ubuf w /\ w_held w' = w_held w /\ w_pending w' = w_pending w
+        /\ zlen data <= len
+        /\ (ret = -1 \/ (0 <= ret <= avail S off len /\ zlen data = ret
+                         /\ forall i, 0 <= i < ret -> getz data i = getz src (off + i)))
+        /\ (AllOk (w_sor w) -> ret = avail S off len /\ AllOk (w_sor w'))
+    end.
+  Proof.
+    intros Hoff Hlen. unfold src_pread.
+    destruct (pop (w_sor w)) as [o rest] eqn:Hpop. cbn [w_st w_ubuf w_held w_pending w_sor].
+    fold S. set (av := avail S off len).
+    set (ret := match o with OOk => av | OShort n => Z.min (Z.max 0 n) av | OFail => -1 end).
+    assert (Hav : 0 <= av) by apply avail_range.
+    assert (Hfit : 0 < av -> off + av <= S) by (unfold av, avail; lia).
+    split; [reflexivity |]. split; [reflexivity |]. split; [reflexivity |]. split; [reflexivity |].
+    assert (Hle0 : ret <= av) by (unfold ret; destruct o; lia).
+    assert (Havl : av <= len) by (unfold av; apply avail_le; lia).
+    split; [| split].
+    - destruct (Z.ltb_spec ret 0); [cbn; lia |]. pose proof (zlen_slice_le src off ret ltac:(lia)). lia.
+    - destruct (Z.ltb_spec ret 0) as [Hneg | Hnn].
+      + left. unfold ret in *. destruct o; lia.
+      + right. assert (Hle : ret <= av) by (unfold ret; destruct o; lia).
+        split; [lia |]. destruct (Z.eq_dec ret 0) as [H0 | H0].
+        * rewrite H0. split; [reflexivity | intros; lia].
+        * split; [apply zlen_slice; fold S; lia | intros i Hi; apply getz_slice; lia].
+    - intros Hok. apply pop_allok in Hok. rewrite Hpop in Hok. cbn in Hok. destruct Hok as [Ho Hr].
+      split; [unfold ret; now rewrite Ho | exact Hr].
+  Qed.
+
+  (* ---------------------------------------------------------------- writing into the user buffer *)
+  Lemma put_spec w pos data :
+    0 <= pos -> pos + zlen data <= zlen (w_ubuf w) ->
+    let w' := put w pos data in
+    w_st w' = w_st w /\ w_sor w' = w_sor w /\ w_held w' = w_held w /\ w_pending w' = w_pending w
+    /\ zlen (w_ubuf w') = zlen (w_ubuf w)
+    /\ (forall i, pos <= i < pos + zlen data -> getz (w_ubuf w') i = getz data (i - pos))
+    /\ (forall i, 0 <= i -> ~ (pos <= i < pos + zlen data) -> getz (w_ubuf w') i = getz (w_ubuf w) i).
+  Proof.
+    intros Hp Hfit. unfold put. cbn [w_st w_sor w_held w_pending w_ubuf]. pose proof (zlen_nonneg data).
+    split; [reflexivity |]. split; [reflexivity |]. split; [reflexivity |]. split; [reflexivity |]. split; [| split].
+    - rewrite zlen_splice by lia. lia.
+    - intros i Hi. rewrite getz_splice by lia.
+      destruct (Z.leb_spec pos i); destruct (Z.ltb_spec i (pos + zlen data)); cbn [andb]; try lia; try reflexivity.
+    - intros i Hi Hn. rewrite getz_splice by lia.
+      destruct (Z.leb_spec pos i); destruct (Z.ltb_spec i (pos + zlen data)); cbn [andb]; try lia; reflexivity.
+  Qed.
+
+  (* ---------------------------------------------------------------- hole query *)
+  Lemma query_spec st off size :
+    WF (s_filled st) -> 0 <= off -> 0 < size ->
+    let q := query cfg st off size in
+    (snd q = 0 /\ 0 <= fst q /\ forall x, off <= x < off + size -> covers (s_filled st) x)
+    \/ (0 <= fst q < off + size /\ 0 < snd q).
+  Proof.
+    intros Hwf Hoff Hsize. unfold query.
+    pose proof (queryRefillRange_spec (s_filled st) off (off + size) Hwf) as Hq. cbv zeta in Hq.
+    set (h := queryRefillRange (s_filled st) off (off + size)) in *.
+    destruct Hq as [[Heq Hall] | (Hlr & Ha & Hab & Hb & _)].
+    - rewrite Heq. cbn. left. split; [reflexivity | split; [lia | exact Hall]].
+    - assert (Hnz : (fst h =? 0) && (snd h =? 0) = false).
+      { destruct (Z.eqb_spec (snd h) 0); [lia |]. apply andb_false_r. }
+      rewrite Hnz. cbn [fst snd]. right.
+      pose proof (align_down_bounds (fst h) (c_unit cfg) ltac:(lia) Hunit).
+      pose proof (align_down_nonneg (fst h) (c_unit cfg) ltac:(lia)).
+      pose proof (align_up_ge (snd h) (c_unit cfg) ltac:(lia) Hunit).
+      lia.
+  Qed.
+
+  (* ---------------------------------------------------------------- try_preadv2 *)
+  Definition Agree (ub : list Z) (lo hi off : Z) : Prop :=
+    forall i, lo <= i < hi -> getz ub i = getz src (off + (i - lo)).
+
+  Lemma try_preadv2_spec w lo hi off :
+    Inv (w_st w) -> 0 <= lo -> lo < hi -> hi <= zlen (w_ubuf w) -> 0 <= off ->
+    match try_preadv2 cfg w lo hi off with
+    | (tr, w') =>
+        w_st w' = w_st w /\ w_sor w' = w_sor w /\ w_held w' = w_held w /\ w_pending w' = w_pending w
+        /\ zlen (w_ubuf w') = zlen (w_ubuf w)
+        /\ (forall i, 0 <= i -> ~ (lo <= i < hi) -> getz (w_ubuf w') i = getz (w_ubuf w) i)
+        /\ match tr with
+           | THit n => n = hi - lo /\ Agree (w_ubuf w') lo hi off
+           | TShort => True
+           | TMiss roff rsize => w' = w /\ 0 <= roff < off + (hi - lo) /\ 0 < rsize
+           end
+    end.
+  Proof.
+    intros (Hwf & Hcons & Hact & Hpg) Hlo Hlh Hhi Hoff. unfold try_preadv2.
+    destruct (query_spec (w_st w) off (hi - lo) Hwf Hoff ltac:(lia)) as [(Hq0 & Hq1 & Hall) | (Hq1 & Hq2)].
+    - rewrite Hq0. destruct (Z.leb_spec 0 (fst (query cfg (w_st w) off (hi - lo)))); [| lia]. cbn [andb Z.eqb].
+      set (media := s_media (w_st w)).
+      assert (Hn : avail (zlen media) off (hi - lo) = hi - lo).
+      { apply avail_full; [lia |]. destruct (Hcons (off + (hi - lo) - 1)) as (H1 & _); [apply Hall; lia |]. fold media in H1. lia. }
+      rewrite Hn. rewrite Z.eqb_refl.
+      assert (Hzl : zlen (slice media off (hi - lo)) = hi - lo).
+      { apply zlen_slice; try lia. destruct (Hcons (off + (hi - lo) - 1)) as (H1 & _); [apply Hall; lia |]. fold media in H1. lia. }
+      destruct (put_spec (add_log w (EvMedR off (hi - lo) (hi - lo))) lo (slice media off (hi - lo)))
+        as (P1 & P2 & P3 & P4 & P5 & P6 & P7); [lia | cbn; rewrite Hzl; lia |].
+      cbn [add_log w_st w_sor w_held w_pending w_ubuf] in *. rewrite Hzl in *.
+      repeat split; try assumption.
+      + intros i Hi Hn'. apply P7; [lia |]. lia.
+      + intros i Hi. rewrite P6 by lia. rewrite getz_slice by lia.
+        destruct (Hcons (off + (i - lo))) as (_ & _ & H3); [apply Hall; lia |]. exact H3.
+    - destruct (Z.eqb_spec (snd (query cfg (w_st w) off (hi - lo))) 0) as [H0 | H0]; [lia |].
+      rewrite andb_false_r. repeat split; try reflexivity; lia.
+  Qed.
+
+  (* ---------------------------------------------------------------- do_refill_range *)
+  Definition Good (w : world) : Prop := Inv (w_st w) /\ PG w /\ w_held w = [].
+
+  Lemma PG_transfer w w' :
+    s_actual (w_st w') = s_actual (w_st w) -> w_pending w' = w_pending w -> PG w -> PG w'.
+  Proof.
+    intros Ha Hp H off data Hin. rewrite Hp in Hin. destruct (H off data Hin) as (H1 & H2 & H3).
+    unfold GoodData. rewrite Ha. tauto.
+  Qed.
+
+  (* the three overlap cases, store.cpp:251-263 (text of the model, proved equal below) *)
+  Definition refill_copy (w1 : world) (data : list Z) (roff rsize count lo hi offset : Z)
+    : Z * world * Z * Z * Z :=
+    if roff <=? offset then
+      let rb := skipn (Z.to_nat (offset - roff)) data in
+      let n := Z.min count (Z.min (zlen rb) (hi - lo)) in
+      (n, put w1 lo (firstn (Z.to_nat n) rb), lo + n, hi, offset + n)
+    else if offset + count <=? roff + rsize then
+      let d := roff - offset in
+      let tl := Z.max 0 (Z.min (count - d) ((hi - lo) - d)) in
+      let n := Z.min (zlen data) tl in
+      (n, put w1 (lo + d) (firstn (Z.to_nat n) data), lo, hi - n, offset)
+    else (0, w1, lo, hi, offset).
+
+  (* write-back and the re-read of the remainder, store.cpp:265-301 *)
+  Definition refill_tail (sync : bool) (roff : Z) (data : list Z) (count : Z)
+             (x : Z * world * Z * Z * Z) : rres * world :=
+    let '(ret, w2, lo2, hi2, offset2) := x in
+    let st2 := w_st w2 in
+    let async := negb (ret =? 0) && negb sync && c_pool cfg && c_tp cfg
+                 && (s_refilling st2 <? c_maxr cfg) in
+    let w3 :=
+      if async then
+        mkW (mkStore (s_actual st2) (s_filled st2) (s_media st2) (s_td st2) (s_refilling st2 + 1))
+            (w_sor w2) (w_wor w2) (w_ubuf w2) (w_held w2) (w_pending w2 ++ [(roff, data)]) (w_log w2)
+      else snd (do_pwritev2 w2 roff data) in
+    if negb (ret =? count) then
+      let (tr, w4) := try_preadv2 cfg w3 lo2 hi2 offset2 in
+      match tr with
+      | THit _ => (RRet count, w4)
+      | _ =>
+          let '(r2, d2, w5) := src_pread src w4 offset2 (hi2 - lo2) in
+          let w6 := put w5 lo2 d2 in
+          if r2 + ret =? count then (RRet count, w6) else (RRet (-1), w6)
+      end
+    else (RRet count, w3).
+
+  Lemma do_refill_unfold sync w roff rsize0 count asize lo hi offset :
+    do_refill src cfg sync w roff rsize0 count asize lo hi offset =
+    if c_pool cfg && negb sync && (c_thr cfg <=? s_refilling (w_st w)) then
+      let '(ret, data, w1) := src_pread src w offset (hi - lo) in (RRet ret, put w1 lo data)
+    else
+    let rsize := if asize <? roff + rsize0 then asize - roff else rsize0 in
+    if conflict (w_held w) roff rsize then (RAgain, run_holders src w)
+    else if negb (asize =? s_actual (w_st w)) then (RAgain, w)
+    else
+    let '(ret0, data, w1) := src_pread src w roff rsize in
+    if negb (ret0 =? rsize) then (RRet (-1), w1)
+    else refill_tail sync roff data count (refill_copy w1 data roff rsize count lo hi offset).
+  Proof.
+    unfold do_refill, refill_tail, refill_copy.
+    destruct (c_pool cfg && negb sync && (c_thr cfg <=? s_refilling (w_st w))); [reflexivity |].
+    cbv zeta.
+    destruct (conflict (w_held w) roff (if asize <? roff + rsize0 then asize - roff else rsize0)); [reflexivity |].
+    destruct (negb (asize =? s_actual (w_st w))); [reflexivity |].
+    destruct (src_pread src w roff (if asize <? roff + rsize0 then asize - roff else rsize0)) as [[ret0 data] w1].
+    destruct (negb (ret0 =? (if asize <? roff + rsize0 then asize - roff else rsize0))); [reflexivity |].
+    destruct (roff <=? offset); [reflexivity |].
+    destruct (offset + count <=? roff + (if asize <? roff + rsize0 then asize - roff else rsize0)); reflexivity.
+  Qed.
+
+  (* what the copy step establishes: [lo2,hi2) is the part of the window still to be read, it
+     stands for file offset offset2 = offset + (lo2 - lo), and everything else in the window
+     already holds source bytes *)
+  Definition Mid (w1 w2 : world) (ret lo2 hi2 offset2 count lo hi offset : Z) : Prop :=
+    w_st w2 = w_st w1 /\ w_sor w2 = w_sor w1 /\ w_held w2 = w_held w1 /\ w_pending w2 = w_pending w1
+    /\ zlen (w_ubuf w2) = zlen (w_ubuf w1)
+    /\ (forall i, 0 <= i -> ~ (lo <= i < hi) -> getz (w_ubuf w2) i = getz (w_ubuf w1) i)
+    /\ 0 <= ret <= count /\ lo <= lo2 /\ hi2 <= hi /\ hi2 - lo2 = count - ret
+    /\ offset2 = offset + (lo2 - lo)
+    /\ (forall i, lo <= i < hi -> ~ (lo2 <= i < hi2) -> getz (w_ubuf w2) i = getz src (offset + (i - lo))).
+
+  Lemma refill_copy_spec w1 data roff rsize count lo hi offset :
+    0 <= lo -> lo < hi -> hi <= zlen (w_ubuf w1) -> count = hi - lo ->
+    0 <= offset -> 0 <= roff < offset + count -> 0 < rsize -> zlen data = rsize ->
+    (forall i, 0 <= i < rsize -> getz data i = getz src (roff + i)) ->
+    match refill_copy w1 data roff rsize count lo hi offset with
+    | (ret, w2, lo2, hi2, offset2) => Mid w1 w2 ret lo2 hi2 offset2 count lo hi offset
+    end.
+  Proof.
+    intros Hlo Hlh Hhi Hcount Hoff Hroff Hrs Hzl Hdata. unfold refill_copy.
+    destruct (Z.leb_spec roff offset) as [Hc1 | Hc1].
+    - (* refill buffer starts at or before the request *)
+      set (k := offset - roff).
+      set (rb := skipn (Z.to_nat k) data).
+      assert (Hrb : zlen rb = Z.max 0 (rsize - k)).
+      { unfold rb, zlen in *. rewrite skipn_length. lia. }
+      set (n := Z.min count (Z.min (zlen rb) (hi - lo))).
+      assert (Hn : 0 <= n <= count) by (unfold n; lia).
+      assert (Hzn : zlen (firstn (Z.to_nat n) rb) = n).
+      { destruct (Z.eq_dec n 0) as [Hn0 | Hn0]; [rewrite Hn0; reflexivity |].
+        change (firstn (Z.to_nat n) rb) with (slice data k n). apply zlen_slice; unfold n, k in *; lia. }
+      destruct (put_spec w1 lo (firstn (Z.to_nat n) rb)) as (P1 & P2 & P3 & P4 & P5 & P6 & P7); [lia | lia |].
+      rewrite Hzn in *.
+      unfold Mid. split; [exact P1 |]. split; [exact P2 |]. split; [exact P3 |]. split; [exact P4 |]. split; [exact P5 |].
+      split; [intros i Hi Hni; apply P7; lia |].
+      split; [lia |]. split; [lia |]. split; [lia |]. split; [lia |]. split; [lia |].
+      intros i Hi Hni. rewrite P6 by lia.
+      change (firstn (Z.to_nat n) rb) with (slice data k n). rewrite getz_slice by (unfold k; lia).
+      rewrite Hdata by (unfold n, k in *; lia). f_equal. unfold k. lia.
+    - destruct (Z.leb_spec (offset + count) (roff + rsize)) as [Hc2 | Hc2].
+      + (* refill buffer covers the tail of the request *)
+        set (d := roff - offset).
+        set (tl := Z.max 0 (Z.min (count - d) (hi - lo - d))).
+        set (n := Z.min (zlen data) tl).
+        assert (Hd : 0 < d) by (unfold d; lia).
+        assert (Hn : 0 <= n <= count - d) by (unfold n, tl; lia).
+        assert (Hzn : zlen (firstn (Z.to_nat n) data) = n).
+        { rewrite firstn_is_slice. apply zlen_slice; unfold n, tl in *; lia. }
+        assert (Hdc : d < count) by (unfold d; lia).
+        assert (Hneq : n = count - d) by (unfold n, tl; lia).
+        destruct (put_spec w1 (lo + d) (firstn (Z.to_nat n) data)) as (P1 & P2 & P3 & P4 & P5 & P6 & P7); [lia | lia |].
+        rewrite Hzn in *.
+        unfold Mid. split; [exact P1 |]. split; [exact P2 |]. split; [exact P3 |]. split; [exact P4 |]. split; [exact P5 |].
+        split; [intros i Hi Hni; apply P7; lia |].
+        split; [lia |]. split; [lia |]. split; [lia |]. split; [lia |]. split; [lia |].
+        intros i Hi Hni. rewrite P6 by lia.
+        rewrite firstn_is_slice, getz_slice by lia. rewrite Hdata by lia. f_equal. unfold d. lia.
+      + unfold Mid. repeat split; try reflexivity; try lia.
+  Qed.
+
+
+  (* the direct source read of the remainder, store.cpp:293-297 *)
+  Definition fallback (w4 : world) (lo2 hi2 offset2 ret count : Z) : rres * world :=
+    let '(r2, d2, w5) := src_pread src w4 offset2 (hi2 - lo2) in
+    let w6 := put w5 lo2 d2 in
+    if r2 + ret =? count then (RRet count, w6) else (RRet (-1), w6).
+
+  Lemma fallback_spec w4 lo2 hi2 offset2 ret count :
+    Good w4 -> 0 <= lo2 -> lo2 < hi2 -> hi2 <= zlen (w_ubuf w4) -> 0 <= offset2 ->
+    hi2 - lo2 = count - ret -> offset2 + (hi2 - lo2) <= s_actual (w_st w4) ->
+    match fallback w4 lo2 hi2 offset2 ret count with
+    | (RAgain, _) => False
+    | (RRet r, w') =>
+        Good w' /\ w_st w' = w_st w4 /\ zlen (w_ubuf w') = zlen (w_ubuf w4)
+        /\ (forall i, 0 <= i -> ~ (lo2 <= i < hi2) -> getz (w_ubuf w') i = getz (w_ubuf w4) i)
+        /\ (r = -1 \/ (r = count /\ Agree (w_ubuf w') lo2 hi2 offset2))
+        /\ (AllOk (w_sor w4) -> r = count /\ AllOk (w_sor w'))
+    end.
+  Proof.
+    intros (Hinv & Hpg & Hheld) Hlo Hlh Hhi Hoff Hlen Hfit. unfold fallback.
+    pose proof (src_pread_spec w4 offset2 (hi2 - lo2) Hoff ltac:(lia)) as Hs.
+    destruct (src_pread src w4 offset2 (hi2 - lo2)) as [[r2 d2] w5].
+    destruct Hs as (S1 & S2 & S3 & S4 & S5 & S6 & S7).
+    destruct (put_spec w5 lo2 d2) as (P1 & P2 & P3 & P4 & P5 & P6 & P7); [lia | rewrite S2; lia |].
+    assert (HG : Good (put w5 lo2 d2)).
+    { unfold Good. rewrite P1, S1, P3, S3. split; [exact Hinv |]. split; [| exact Hheld].
+      apply (PG_transfer w4); [now rewrite P1, S1 | now rewrite P4, S4 | exact Hpg]. }
+    assert (Hact : s_actual (w_st w4) <= S) by (destruct Hinv as (_ & _ & ? & _); lia).
+    destruct (Z.eqb_spec (r2 + ret) count) as [Heq | Hne].
+    - split; [exact HG |]. split; [now rewrite P1, S1 |]. split; [now rewrite P5, S2 |].
+      destruct S6 as [Hm1 | (Hr & Hz & Hd)]; [lia |].
+      assert (Hr2 : r2 = hi2 - lo2) by lia.
+      split; [intros i Hi Hni; rewrite P7 by lia; now rewrite S2 |].
+      split.
+      + right. split; [reflexivity |]. intros i Hi. rewrite P6 by lia. rewrite Hd by lia. f_equal.
+      + intros Hok. destruct (S7 Hok) as [_ Hok']. split; [reflexivity |]. now rewrite P2.
+    - split; [exact HG |]. split; [now rewrite P1, S1 |]. split; [now rewrite P5, S2 |].
+      split; [intros i Hi Hni; rewrite P7 by lia; now rewrite S2 |].
+      split; [now left |].
+      intros Hok. destruct (S7 Hok) as [Hr _]. exfalso. apply Hne. rewrite Hr.
+      rewrite avail_full by lia. lia.
+  Qed.
+
+  Lemma refill_tail_spec sync w1 roff data count ret w2 lo2 hi2 offset2 lo hi offset :
+    Good w1 -> GoodData (w_st w1) roff data ->
+    0 <= lo -> lo < hi -> hi <= zlen (w_ubuf w1) -> count = hi - lo ->
+    0 <= offset -> offset + count <= s_actual (w_st w1) ->
+    Mid w1 w2 ret lo2 hi2 offset2 count lo hi offset ->
+    match refill_tail sync roff data count (ret, w2, lo2, hi2, offset2) with
+    | (RAgain, _) => False
+    | (RRet r, w') =>
+        Good w' /\ s_actual (w_st w') = s_actual (w_st w1) /\ zlen (w_ubuf w') = zlen (w_ubuf w1)
+        /\ (forall i, 0 <= i -> ~ (lo <= i < hi) -> getz (w_ubuf w') i = getz (w_ubuf w1) i)
+        /\ (r = -1 \/ (r = count /\ Agree (w_ubuf w') lo hi offset))
+        /\ (AllOk (w_sor w1) -> r = count /\ AllOk (w_sor w'))
+    end.
+  Proof.
+    intros (Hinv & Hpg & Hheld) Hgd Hlo Hlh Hhi Hcount Hoff Hfit
+           (M1 & M2 & M3 & M4 & M5 & M6 & M7 & M8 & M9 & M10 & M11 & M12).
+    unfold refill_tail.
+    set (st2 := w_st w2).
+    set (async := negb (ret =? 0) && negb sync && c_pool cfg && c_tp cfg && (s_refilling st2 <? c_maxr cfg)).
+    set (w3 := if async then
+        mkW (mkStore (s_actual st2) (s_filled st2) (s_media st2) (s_td st2) (s_refilling st2 + 1))
+            (w_sor w2) (w_wor w2) (w_ubuf w2) (w_held w2) (w_pending w2 ++ [(roff, data)]) (w_log w2)
+      else snd (do_pwritev2 w2 roff data)).
+    assert (H3 : Good w3 /\ s_actual (w_st w3) = s_actual (w_st w1) /\ w_ubuf w3 = w_ubuf w2 /\ w_sor w3 = w_sor w2).
+    { unfold w3. destruct async.
+      - cbn [w_st w_ubuf w_sor s_actual]. unfold st2. rewrite M1. split; [| repeat split; reflexivity].
+        unfold Good. cbn [w_st w_held]. split; [| split; [| now rewrite M3]].
+        + destruct Hinv as (I1 & I2 & I3 & I4). unfold Inv, Consistent. cbn [s_filled s_media s_actual]. tauto.
+        + intros off d Hin. cbn [w_pending w_st] in *. unfold GoodData. cbn [s_actual].
+          apply in_app_or in Hin. destruct Hin as [Hin | [Hin | []]].
+          * rewrite M4 in Hin. exact (Hpg off d Hin).
+          * inversion Hin; subst. exact Hgd.
+      - destruct (do_pwritev2_spec w2 roff data) as (D1 & D2 & D3 & D4 & D5 & D6 & D7); [now rewrite M1 | now rewrite M1 |].
+        cbv zeta in *. split; [| split; [now rewrite D2, M1 | split; assumption]].
+        unfold Good. split; [exact D1 |]. split; [| now rewrite D6, M3].
+        apply (PG_transfer w1); [now rewrite D2, M1 | now rewrite D7, M4 | exact Hpg]. }
+    destruct H3 as (HG3 & HA3 & HU3 & HS3).
+    clearbody w3.
+    assert (HmidA : forall ub, (forall i, 0 <= i -> ~ (lo2 <= i < hi2) -> getz ub i = getz (w_ubuf w2) i) ->
+                               Agree ub lo2 hi2 offset2 -> Agree ub lo hi offset).
+    { intros ub Hout Hag i Hi. destruct (Z.lt_ge_cases i lo2) as [Ha | Ha]; [rewrite Hout by lia; apply M12; lia |].
+      destruct (Z.lt_ge_cases i hi2) as [Hb | Hb]; [| rewrite Hout by lia; apply M12; lia].
+      rewrite Hag by lia. f_equal. lia. }
+    destruct (Z.eqb_spec ret count) as [Heq | Hne]; cbn [negb].
+    - split; [exact HG3 |]. split; [exact HA3 |]. split; [now rewrite HU3 |].
+      split; [intros i Hi Hni; rewrite HU3; now apply M6 |].
+      split.
+      + right. split; [reflexivity |]. apply HmidA; [intros; now rewrite HU3 |]. intros i Hi. lia.
+      + intros Hok. split; [reflexivity |]. now rewrite HS3, M2.
+    - assert (Hlh2 : lo2 < hi2) by lia.
+      pose proof (try_preadv2_spec w3 lo2 hi2 offset2) as Ht.
+      destruct (try_preadv2 cfg w3 lo2 hi2 offset2) as [tr w4].
+      destruct Ht as (T1 & T2 & T3 & T4 & T5 & T6 & T7);
+        [destruct HG3; assumption | lia | lia | rewrite HU3, M5; lia | lia |].
+      assert (HG4 : Good w4).
+      { destruct HG3 as (G1 & G2 & G3). unfold Good. rewrite T1, T3. split; [exact G1 |]. split; [| exact G3].
+        apply (PG_transfer w3); [now rewrite T1 | exact T4 | exact G2]. }
+      assert (Hfb : match fallback w4 lo2 hi2 offset2 ret count with
+                    | (RAgain, _) => False
+                    | (RRet r, w') =>
+                        Good w' /\ s_actual (w_st w') = s_actual (w_st w1) /\ zlen (w_ubuf w') = zlen (w_ubuf w1)
+                        /\ (forall i, 0 <= i -> ~ (lo <= i < hi) -> getz (w_ubuf w') i = getz (w_ubuf w1) i)
+                        /\ (r = -1 \/ (r = count /\ Agree (w_ubuf w') lo hi offset))
+                        /\ (AllOk (w_sor w1) -> r = count /\ AllOk (w_sor w'))
+                    end).
+      { pose proof (fallback_spec w4 lo2 hi2 offset2 ret count HG4) as Hf.
+        destruct (fallback w4 lo2 hi2 offset2 ret count) as [[r |] w'].
+        2:{ apply Hf; try lia; [rewrite T5, HU3, M5; lia | rewrite T1, HA3; lia]. }
+        destruct Hf as (F1 & F2 & F3 & F4 & F5 & F6); try lia; [rewrite T5, HU3, M5; lia | rewrite T1, HA3; lia |].
+        split; [exact F1 |]. split; [now rewrite F2, T1 |]. split; [now rewrite F3, T5, HU3 |].
+        split; [intros i Hi Hni; rewrite F4 by lia; rewrite T6 by lia; rewrite HU3; now apply M6 |].
+        split.
+        - destruct F5 as [F5 | [F5 Hag]]; [now left | right]. split; [exact F5 |].
+          apply HmidA; [| exact Hag]. intros i Hi Hni. rewrite F4 by lia. rewrite T6 by lia. now rewrite HU3.
+        - intros Hok. apply F6. now rewrite T2, HS3, M2. }
+      destruct tr as [n | | roff' rsize'].
+      + destruct T7 as [Hn Hag].
+        split; [exact HG4 |]. split; [now rewrite T1 |]. split; [now rewrite T5, HU3 |].
+        split; [intros i Hi Hni; rewrite T6 by lia; rewrite HU3; now apply M6 |].
+        split.
+        * right. split; [reflexivity |]. apply HmidA; [| exact Hag]. intros i Hi Hni. rewrite T6 by lia. now rewrite HU3.
+        * intros Hok. split; [reflexivity |]. now rewrite T2, HS3, M2.
+      + exact Hfb.
+      + exact Hfb.
+  Qed.
+
+  Lemma do_refill_spec sync w roff rsize0 count asize lo hi offset :
+    Good w -> 0 <= lo -> lo < hi -> hi <= zlen (w_ubuf w) -> count = hi - lo ->
+    asize = s_actual (w_st w) -> 0 <= offset -> offset + count <= asize ->
+    0 <= roff < offset + count -> 0 < rsize0 ->
+    match do_refill src cfg sync w roff rsize0 count asize lo hi offset with
+    | (RAgain, _) => False
+    | (RRet r, w') =>
+        Good w' /\ s_actual (w_st w') = asize /\ zlen (w_ubuf w') = zlen (w_ubuf w)
+        /\ (forall i, 0 <= i -> ~ (lo <= i < hi) -> getz (w_ubuf w') i = getz (w_ubuf w) i)
+        /\ (r = -1 \/ (0 <= r <= count /\ Agree (w_ubuf w') lo (lo + r) offset))
+        /\ (AllOk (w_sor w) -> r = count /\ AllOk (w_sor w'))
+    end.
+  Proof.
+    intros HG Hlo Hlh Hhi Hcount Hasize Hoff Hfit Hroff Hrs0.
+    pose proof HG as (Hinv & Hpg & Hheld).
+    assert (HactS : asize <= S) by (destruct Hinv as (_ & _ & ? & _); lia).
+    rewrite do_refill_unfold.
+    destruct (c_pool cfg && negb sync && (c_thr cfg <=? s_refilling (w_st w))).
+    - (* too many refills in flight: read the source directly, store.cpp:203-208 *)
+      pose proof (src_pread_spec w offset (hi - lo) Hoff ltac:(lia)) as Hs.
+      destruct (src_pread src w offset (hi - lo)) as [[ret data] w1].
+      destruct Hs as (S1 & S2 & S3 & S4 & S5 & S6 & S7).
+      destruct (put_spec w1 lo data) as (P1 & P2 & P3 & P4 & P5 & P6 & P7); [lia | rewrite S2; lia |].
+      split.
+      { unfold Good. rewrite P1, S1, P3, S3. split; [exact Hinv |]. split; [| exact Hheld].
+        apply (PG_transfer w); [now rewrite P1, S1 | now rewrite P4, S4 | exact Hpg]. }
+      split; [now rewrite P1, S1 |]. split; [now rewrite P5, S2 |].
+      split; [intros i Hi Hni; rewrite P7 by lia; now rewrite S2 |].
+      split.
+      + destruct S6 as [Hm | (Hr & Hz & Hd)]; [now left | right].
+        pose proof (avail_le S offset (hi - lo) ltac:(lia)).
+        split; [lia |]. intros i Hi. rewrite P6 by lia. rewrite Hd by lia. f_equal.
+      + intros Hok. destruct (S7 Hok) as [Hr Hok']. split; [| now rewrite P2].
+        rewrite Hr. rewrite avail_full by lia. lia.
+    - cbv zeta.
+      set (rsize := if asize <? roff + rsize0 then asize - roff else rsize0).
+      assert (Hrs : 0 < rsize /\ roff + rsize <= asize).
+      { unfold rsize. destruct (Z.ltb_spec asize (roff + rsize0)); lia. }
+      rewrite Hheld. cbn [conflict existsb].
+      replace (asize =? s_actual (w_st w)) with true by (symmetry; apply Z.eqb_eq; exact Hasize). cbn [negb].
+      pose proof (src_pread_spec w roff rsize ltac:(lia) ltac:(lia)) as Hs.
+      destruct (src_pread src w roff rsize) as [[ret0 data] w1].
+      destruct Hs as (S1 & S2 & S3 & S4 & S5 & S6 & S7).
+      assert (HG1 : Good w1).
+      { unfold Good. rewrite S1, S3. split; [exact Hinv |]. split; [| exact Hheld].
+        apply (PG_transfer w); [now rewrite S1 | exact S4 | exact Hpg]. }
+      destruct (Z.eqb_spec ret0 rsize) as [Heq | Hne]; cbn [negb].
+      + destruct S6 as [Hm | (Hr & Hz & Hd)]; [lia |].
+        pose proof (refill_copy_spec w1 data roff rsize count lo hi offset Hlo Hlh ltac:(rewrite S2; lia) Hcount Hoff Hroff
+                      ltac:(lia) ltac:(lia) ltac:(intros i Hi; apply Hd; lia)) as Hmid.
+        destruct (refill_copy w1 data roff rsize count lo hi offset) as [[[[ret w2] lo2] hi2] offset2].
+        pose proof (refill_tail_spec sync w1 roff data count ret w2 lo2 hi2 offset2 lo hi offset HG1) as Ht.
+        destruct (refill_tail sync roff data count (ret, w2, lo2, hi2, offset2)) as [[r |] w'].
+        2:{ apply Ht; try assumption; try lia; [| rewrite S2; lia | rewrite S1; lia].
+            unfold GoodData. rewrite S1. split; [lia |]. split; [lia |]. intros i Hi. apply Hd. lia. }
+        destruct Ht as (T1 & T2 & T3 & T4 & T5 & T6); try assumption; try lia; [| rewrite S2; lia | rewrite S1; lia |].
+        { unfold GoodData. rewrite S1. split; [lia |]. split; [lia |]. intros i Hi. apply Hd. lia. }
+        split; [exact T1 |]. split; [now rewrite T2, S1 |]. split; [now rewrite T3, S2 |].
+        split; [intros i Hi Hni; rewrite T4 by lia; now rewrite S2 |].
+        split.
+        * destruct T5 as [T5 | [T5 Hag]]; [now left | right]. split; [lia |]. rewrite T5.
+          replace (lo + count) with hi by lia. exact Hag.
+        * intros Hok. destruct (S7 Hok) as [_ Hok']. exact (T6 Hok').
+      + split; [exact HG1 |]. split; [now rewrite S1 |]. split; [now rewrite S2 |].
+        split; [intros i Hi Hni; now rewrite S2 |].
+        split; [now left |].
+        intros Hok. destruct (S7 Hok) as [Hr _]. exfalso. apply Hne. rewrite Hr. apply avail_full; lia.
+  Qed.
+
+  (* ---------------------------------------------------------------- tryget_size *)
+  Lemma tryget_size_spec w :
+    Good w ->
+    match tryget_size src cfg w with
+    | (r, w') =>
+        w_ubuf w' = w_ubuf w
+        /\ ((r = 0 /\ Good w' /\ s_actual (w_st w) <= s_actual (w_st w')
+             /\ (s_actual (w_st w') = S \/ w' = w))
+            \/ (r = -1 /\ Good w' /\ s_actual (w_st w') = s_actual (w_st w)))
+        /\ (r = 0 -> s_actual (w_st w') = S)
+        /\ (AllOk (w_sor w) -> r = 0 /\ AllOk (w_sor w'))
+    end.
+  Proof.
+    intros HG. pose proof HG as ((Hwf & Hcons & Hact & Hpgsz) & Hpg & Hheld). unfold tryget_size.
+    destruct (Z.eqb_spec (s_actual (w_st w) mod c_page cfg) 0) as [Hal | Hal]; cbn [negb].
+    - destruct (pop (w_sor w)) as [o rest] eqn:Hpop.
+      assert (Hok : AllOk (w_sor w) -> o = OOk /\ AllOk rest).
+      { intros H. apply pop_allok in H. rewrite Hpop in H. exact H. }
+      set (st1 := mkStore (if s_actual (w_st w) <? zlen src then zlen src else s_actual (w_st w))
+                          (s_filled (w_st w)) (s_media (w_st w)) (s_td (w_st w)) (s_refilling (w_st w))).
+      assert (Hst1 : s_actual st1 = S).
+      { unfold st1. cbn [s_actual]. fold S. destruct (Z.ltb_spec (s_actual (w_st w)) S); lia. }
+      assert (HG1 : forall l, Good (mkW st1 rest (w_wor w) (w_ubuf w) (w_held w) (w_pending w) l)).
+      { intros l. unfold Good. cbn [w_st w_held]. split; [| split; [| exact Hheld]].
+        - unfold Inv. rewrite Hst1. unfold st1. cbn [s_filled]. split; [exact Hwf |]. split; [| split; [lia | tauto]].
+          intros x Hx. cbn [s_filled s_media s_actual] in *. destruct (Hcons x Hx) as (H1 & H2 & H3).
+          split; [exact H1 |]. split; [| exact H3]. fold S. destruct (Z.ltb_spec (s_actual (w_st w)) S); lia.
+        - intros off d Hin. cbn [w_pending w_st] in *. destruct (Hpg off d Hin) as (H1 & H2 & H3).
+          unfold GoodData. rewrite Hst1. split; [exact H1 |]. split; [lia | exact H3]. }
+      destruct o.
+      + cbn [w_ubuf w_st w_sor]. split; [reflexivity |]. split.
+        { left. split; [reflexivity |]. split; [apply HG1 |]. rewrite Hst1. split; [lia | now left]. }
+        split; [intros _; exact Hst1 |]. intros H. destruct (Hok H). tauto.
+      + cbn [w_ubuf w_st w_sor]. split; [reflexivity |]. split.
+        { left. split; [reflexivity |]. split; [apply HG1 |]. rewrite Hst1. split; [lia | now left]. }
+        split; [intros _; exact Hst1 |]. intros H. destruct (Hok H). discriminate.
+      + cbn [w_ubuf w_st w_sor]. split; [reflexivity |]. split.
+        { right. split; [reflexivity |]. split; [| reflexivity]. unfold Good. cbn [w_st w_held]. split; [exact (conj Hwf (conj Hcons (conj Hact Hpgsz))) |]. split; [| exact Hheld].
+          intros off d Hin. exact (Hpg off d Hin). }
+        split; [intros; lia |]. intros H. destruct (Hok H). discriminate.
+    - split; [reflexivity |]. split.
+      { left. split; [reflexivity |]. split; [exact HG |]. split; [lia | now right]. }
+      split; [intros _; now apply Hpgsz |]. intros H. split; [reflexivity | exact H].
+  Qed.
+
+  (* ---------------------------------------------------------------- preadv2 *)
+  Definition full (offset vsize : Z) : Z := Z.max 0 (Z.min vsize (S - offset)).
+
+  Definition ReadPost (w : world) (offset vsize : Z) (co : bool) (r : Z) (w' : world) : Prop :=
+    Good w' /\ zlen (w_ubuf w') = zlen (w_ubuf w)
+    /\ s_actual (w_st w) <= s_actual (w_st w')
+    /\ (forall i, full offset vsize <= i -> getz (w_ubuf w') i = getz (w_ubuf w) i)
+    /\ (r = -1 \/ (0 <= r <= full offset vsize /\ Agree (w_ubuf w') 0 r offset))
+    /\ (AllOk (w_sor w) -> co = false -> r = full offset vsize)
+    /\ (AllOk (w_sor w) -> AllOk (w_sor w')).
+
+  Lemma preadv2_loop_spec fuel co sync w offset vsize :
+    Good w -> zlen (w_ubuf w) = vsize -> 0 <= offset -> 0 < vsize ->
+    (s_actual (w_st w) = S \/ offset + vsize <= s_actual (w_st w)) ->
+    match preadv2_loop src cfg (Datatypes.S fuel) co sync w offset vsize with
+    | (r, w') => ReadPost w offset vsize co r w'
+    end.
+  Proof.
+    intros HG Hub Hoff Hvs Hsz. pose proof HG as (Hinv & Hpg & Hheld).
+    assert (HactS : 0 <= s_actual (w_st w) <= S) by (destruct Hinv as (_ & _ & ? & _); lia).
+    cbn [preadv2_loop]. set (asize := s_actual (w_st w)) in *.
+    destruct (Z.leb_spec asize offset) as [Hle | Hgt].
+    - assert (Hf : full offset vsize = 0) by (unfold full; lia).
+      unfold ReadPost. rewrite Hf. split; [exact HG |]. split; [reflexivity |]. split; [lia |]. split; [reflexivity |].
+      split; [right; split; [lia | intros i Hi; lia] |]. split; [reflexivity | tauto].
+    - set (iov := if asize <? offset + vsize then asize - offset else vsize).
+      assert (Hiov : iov = full offset vsize /\ 0 < iov /\ offset + iov <= asize).
+      { unfold iov, full. destruct (Z.ltb_spec asize (offset + vsize)); lia. }
+      destruct Hiov as (Hif & Hipos & Hifit).
+      pose proof (try_preadv2_spec w 0 iov offset Hinv ltac:(lia) Hipos ltac:(unfold iov in *; destruct (Z.ltb_spec asize (offset + vsize)); lia) Hoff) as Ht.
+      assert (Hcommon : forall tr w1, (tr, w1) = try_preadv2 cfg w 0 iov offset ->
+                 Good w1 /\ s_actual (w_st w1) = asize).
+      { intros tr w1 E. rewrite <- E in Ht. destruct Ht as (T1 & T2 & T3 & T4 & _).
+        split; [| now rewrite T1]. unfold Good. rewrite T1, T3. split; [exact Hinv |]. split; [| exact Hheld].
+        apply (PG_transfer w); [now rewrite T1 | exact T4 | exact Hpg]. }
+      destruct co.
+      + destruct (try_preadv2 cfg w 0 iov offset) as [tr w1] eqn:E.
+        destruct (Hcommon tr w1 eq_refl) as [HG1 Ha1].
+        destruct Ht as (T1 & T2 & T3 & T4 & T5 & T6 & T7).
+        unfold ReadPost; rewrite <- Hif. destruct tr as [n | | roff rsize];
+          (split; [exact HG1 |]); (split; [exact T5 |]); (split; [fold asize; lia |]);
+          (split; [intros i Hi; apply T6; lia |]); (split; [| split; [intros; discriminate | now rewrite T2]]).
+        * destruct T7 as [Hn Hag]. right. split; [lia |]. rewrite Hn. replace (iov - 0) with iov by lia.
+          intros i Hi. rewrite Hag by lia. f_equal.
+        * now left.
+        * now left.
+      + destruct (try_preadv2 cfg w 0 iov offset) as [tr w1] eqn:E.
+        destruct (Hcommon tr w1 eq_refl) as [HG1 Ha1].
+        destruct Ht as (T1 & T2 & T3 & T4 & T5 & T6 & T7).
+        destruct tr as [n | | roff rsize].
+        * unfold ReadPost; rewrite <- Hif. split; [exact HG1 |]. split; [exact T5 |]. split; [fold asize; lia |].
+          split; [intros i Hi; apply T6; lia |].
+          destruct T7 as [Hn Hag]. split.
+          -- right. split; [lia |]. rewrite Hn. replace (iov - 0) with iov by lia.
+             intros i Hi. rewrite Hag by lia. f_equal.
+          -- split; [intros _ _; lia | now rewrite T2].
+        * (* the media file is shorter than the filled map says: direct source read *)
+          pose proof (src_pread_spec w1 offset iov Hoff ltac:(lia)) as Hs.
+          destruct (src_pread src w1 offset iov) as [[r d] w2].
+          destruct Hs as (S1 & S2 & S3 & S4 & S5 & S6 & S7).
+          destruct (put_spec w2 0 d) as (P1 & P2 & P3 & P4 & P5 & P6 & P7); [lia | rewrite S2, T5; unfold iov in *; destruct (Z.ltb_spec asize (offset + vsize)); lia |].
+          unfold ReadPost; rewrite <- Hif. split.
+          { destruct HG1 as (G1 & G2 & G3). unfold Good. rewrite P1, S1, P3, S3. split; [exact G1 |]. split; [| exact G3].
+            apply (PG_transfer w1); [now rewrite P1, S1 | now rewrite P4, S4 | exact G2]. }
+          split; [now rewrite P5, S2, T5 |]. split; [rewrite P1, S1, Ha1; fold asize; lia |].
+          split; [intros i Hi; rewrite P7 by lia; rewrite S2; apply T6; lia |].
+          split.
+          -- destruct S6 as [Hm | (Hr & Hz & Hd)]; [now left | right].
+             pose proof (avail_le S offset iov ltac:(lia)). split; [lia |].
+             intros i Hi. rewrite P6 by lia. rewrite Hd by lia. f_equal; lia.
+          -- split.
+             ++ intros Hok _. rewrite <- T2 in Hok. destruct (S7 Hok) as [Hr _]. rewrite Hr. apply avail_full; lia.
+             ++ intros Hok. rewrite <- T2 in Hok. destruct (S7 Hok) as [_ Hr]. now rewrite P2.
+        * destruct T7 as (Hw1 & Hro & Hrs). subst w1.
+          pose proof (do_refill_spec sync w roff rsize iov asize 0 iov offset HG ltac:(lia) Hipos
+                        ltac:(unfold iov in *; destruct (Z.ltb_spec asize (offset + vsize)); lia)
+                        ltac:(lia) eq_refl Hoff Hifit ltac:(lia) Hrs) as Hr.
+          destruct (do_refill src cfg sync w roff rsize iov asize 0 iov offset) as [[r |] w2]; [| contradiction].
+          destruct Hr as (R1 & R2 & R3 & R4 & R5 & R6).
+          unfold ReadPost; rewrite <- Hif. split; [exact R1 |]. split; [exact R3 |]. split; [fold asize; lia |].
+          split; [intros i Hi; apply R4; lia |].
+          split; [destruct R5 as [R5 | [R5 Hag]]; [now left | right; split; [lia | exact Hag]] |].
+          split; [intros Hok _; now destruct (R6 Hok) | intros Hok; now destruct (R6 Hok)].
+  Qed.
+
+  Lemma ReadPost_ge w offset vsize co r w' :
+    ReadPost w offset vsize co r w' -> r <> -2.
+  Proof. intros (_ & _ & _ & _ & [H | [H _]] & _ & _); lia. Qed.
+
+  Lemma preadv2_spec co sync w offset vsize :
+    Good w -> zlen (w_ubuf w) = vsize -> 0 <= offset ->
+    match preadv2 src cfg co sync w offset vsize with
+    | (r, w') => ReadPost w offset vsize co r w'
+    end.
+  Proof.
+    intros HG Hub Hoff. pose proof HG as (Hinv & Hpg & Hheld).
+    assert (HactS : 0 <= s_actual (w_st w) <= S) by (destruct Hinv as (_ & _ & ? & _); lia).
+    assert (Hvs : 0 <= vsize) by (rewrite <- Hub; apply zlen_nonneg).
+    unfold preadv2. destruct (Z.ltb_spec offset 0); [lia |].
+    destruct (Z.eqb_spec vsize 0) as [Hv0 | Hv0].
+    { assert (Hf : full offset vsize = 0) by (unfold full; lia).
+      unfold ReadPost. rewrite Hf. split; [exact HG |]. split; [reflexivity |]. split; [lia |]. split; [reflexivity |].
+      split; [right; split; [lia | intros i Hi; lia] |]. split; [reflexivity | tauto]. }
+    set (asize := s_actual (w_st w)) in *.
+    destruct ((asize <=? offset) || (asize <? offset + vsize)) eqn:Hneed.
+    - pose proof (tryget_size_spec w HG) as Hg.
+      destruct (tryget_size src cfg w) as [r w1].
+      destruct Hg as (G1 & G2 & G3 & G4).
+      destruct (Z.eqb_spec r 0) as [Hr0 | Hr0]; cbn [negb].
+      + destruct G2 as [(_ & HG1 & Hmono & _) | (Hm1 & _ & _)]; [| lia].
+        pose proof (preadv2_loop_spec 3 co sync w1 offset vsize HG1 ltac:(now rewrite G1) Hoff ltac:(lia) (or_introl (G3 Hr0))) as Hl.
+        destruct (preadv2_loop src cfg 4 co sync w1 offset vsize) as [r' w'].
+        destruct Hl as (L1 & L2 & L3 & L4 & L5 & L6 & L7).
+        unfold ReadPost. rewrite <- G1. split; [exact L1 |]. split; [exact L2 |]. split; [fold asize in Hmono; lia |].
+        split; [exact L4 |]. split; [exact L5 |]. split.
+        * intros Hok Hco. apply L6; [| exact Hco]. now destruct (G4 Hok).
+        * intros Hok. apply L7. now destruct (G4 Hok).
+      + destruct G2 as [(H0 & _) | (Hm1 & HG1 & Hsame)]; [lia |].
+        unfold ReadPost. rewrite G1. split; [exact HG1 |]. split; [reflexivity |].
+        split; [rewrite Hsame; lia |].
+        split; [reflexivity |]. split; [now left |].
+        split; [intros Hok _; destruct (G4 Hok); lia | intros Hok; now destruct (G4 Hok)].
+    - apply orb_false_iff in Hneed. destruct Hneed as [H1 H2]. apply Z.leb_gt in H1. apply Z.ltb_ge in H2.
+      exact (preadv2_loop_spec 3 co sync w offset vsize HG Hub Hoff ltac:(lia) (or_intror H2)).
+  Qed.
+
+  (* ---------------------------------------------------------------- async write-back *)
+  Lemma drain_aux_spec ps : forall w,
+    Inv (w_st w) -> (forall off data, In (off, data) ps -> GoodData (w_st w) off data) ->
+    Inv (w_st (drain_aux w ps)) /\ s_actual (w_st (drain_aux w ps)) = s_actual (w_st w).
+  Proof.
+    induction ps as [| [off data] t IH]; intros w Hinv Hps; cbn [drain_aux].
+    - split; [exact Hinv | reflexivity].
+    - destruct (do_pwritev2_spec w off data Hinv (Hps off data (or_introl eq_refl))) as (D1 & D2 & _).
+      cbv zeta in *.
+      set (w1 := snd (do_pwritev2 w off data)) in *.
+      set (w2 := set_st w1 (mkStore (s_actual (w_st w1)) (s_filled (w_st w1)) (s_media (w_st w1)) (s_td (w_st w1)) (s_refilling (w_st w1) - 1))).
+      assert (Hinv2 : Inv (w_st w2)).
+      { unfold w2, set_st. cbn [w_st]. destruct D1 as (I1 & I2 & I3 & I4). unfold Inv, Consistent. cbn [s_filled s_media s_actual]. tauto. }
+      assert (Ha2 : s_actual (w_st w2) = s_actual (w_st w)) by (unfold w2, set_st; cbn [w_st s_actual]; exact D2).
+      destruct (IH w2 Hinv2) as [J1 J2].
+      { intros o d Hin. destruct (Hps o d (or_intror Hin)) as (H1 & H2 & H3). unfold GoodData. rewrite Ha2. tauto. }
+      split; [exact J1 | now rewrite J2].
+  Qed.
+
+  Lemma drain_spec w : Good w -> Good (drain w) /\ s_actual (w_st (drain w)) = s_actual (w_st w).
+  Proof.
+    intros (Hinv & Hpg & Hheld). unfold drain.
+    destruct (drain_aux_spec (w_pending w) w Hinv Hpg) as [J1 J2].
+    cbn [w_st]. split; [| exact J2]. unfold Good. cbn [w_st w_held]. split; [exact J1 |]. split.
+    - intros off data []. 
+    - clear - Hheld. revert Hheld. generalize (w_pending w). intros ps. revert w.
+      induction ps as [| [o d] t IH]; intros w Hheld; cbn [drain_aux]; [exact Hheld |].
+      apply IH. unfold set_st. cbn [w_held]. destruct (do_pwritev2_fields w o d) as (_ & _ & _ & Hh & _). cbv zeta in Hh. now rewrite Hh.
+  Qed.
+
+  (* ---------------------------------------------------------------- eviction, truncate *)
+  Hypothesis Hsize : S <= OFF_MAX.      (* the source size fits off_t *)
+
+  Lemma evict_inv w off cnt :
+    Inv (w_st w) -> 0 <= off -> -1 <= cnt ->
+    Inv (w_st (evict w off cnt)) /\ s_actual (w_st (evict w off cnt)) = s_actual (w_st w)
+    /\ w_held (evict w off cnt) = w_held w /\ w_pending (evict w off cnt) = w_pending w.
+  Proof.
+    intros (Hwf & Hcons & Hact & Hpg) Hoff Hcnt. unfold evict.
+    destruct (Z.eqb_spec cnt (-1)) as [Hc | Hc]; unfold add_log, set_st; cbn [w_st w_held w_pending s_actual];
+      (split; [| repeat split; reflexivity]); unfold Inv; cbn [s_filled s_media s_actual].
+    - destruct (removeFrom_spec (s_filled (w_st w)) off Hwf) as [Hwf' Hcov'].
+      split; [exact Hwf' |]. split; [| split; assumption].
+      intros x Hx. cbn [s_filled s_media s_actual] in *.
+      assert (Hx' : covers (s_filled (w_st w)) x /\ x < off).
+      { destruct (Z.lt_ge_cases x OFF_MAX) as [Hlt | Hge]; [now apply Hcov' |].
+        exfalso. unfold removeFrom in Hx.
+        destruct (Z.lt_ge_cases off OFF_MAX) as [Ho | Ho].
+        - destruct (removeRange_spec _ off OFF_MAX Hwf Ho) as [_ Hc2]. apply Hc2 in Hx. destruct Hx as [Hx _].
+          destruct (Hcons x Hx) as (_ & ? & _). lia.
+        - unfold removeRange in Hx. destruct (Z.leb_spec OFF_MAX off); [| lia]. destruct (Hcons x Hx) as (_ & ? & _). lia. }
+      destruct Hx' as [Hx1 Hx2]. destruct (Hcons x Hx1) as (H1 & H2 & H3).
+      rewrite zlen_resize by lia. rewrite getz_resize by lia. split; [lia |]. split; [lia | exact H3].
+    - destruct (Z.lt_ge_cases off (off + cnt)) as [Hpos | Hzero].
+      + destruct (removeRange_spec (s_filled (w_st w)) off (off + cnt) Hwf Hpos) as [Hwf' Hcov'].
+        split; [exact Hwf' |]. split; [| split; assumption].
+        intros x Hx. cbn [s_filled s_media s_actual] in *. apply Hcov' in Hx. destruct Hx as [Hx Hn].
+        destruct (Hcons x Hx) as (H1 & H2 & H3).
+        rewrite zlen_punch by lia. rewrite getz_punch_outside by lia. split; [lia |]. split; [lia | exact H3].
+      + assert (cnt = 0) by lia. subst cnt. unfold removeRange. destruct (Z.leb_spec (off + 0) off); [| lia].
+        unfold punch. replace (0 <? Z.max 0 (Z.min 0 (zlen (s_media (w_st w)) - off))) with false by (symmetry; apply Z.ltb_ge; lia).
+        split; [exact Hwf |]. split; [exact Hcons |]. split; assumption.
+  Qed.
+
+  Lemma evict_all_inv w :
+    Inv (w_st w) ->
+    Inv (w_st (evict_all w)) /\ s_actual (w_st (evict_all w)) = s_actual (w_st w)
+    /\ w_held (evict_all w) = w_held w /\ w_pending (evict_all w) = w_pending w.
+  Proof.
+    intros Hinv. unfold evict_all.
+    destruct (evict_inv w 0 (-1) Hinv ltac:(lia) ltac:(lia)) as ((I1 & I2 & I3 & I4) & E2 & E3 & E4).
+    unfold set_st. cbn [w_st w_held w_pending s_actual]. split; [| repeat split; assumption].
+    unfold Inv, Consistent in *. cbn [s_filled s_media s_actual]. tauto.
+  Qed.
+
+  (* ---------------------------------------------------------------- operation sequences *)
+  Definition op_ok (o : op) : Prop :=
+    match o with
+    | OpRead off vsize held _ _ => 0 <= off /\ 0 <= vsize /\ held = []
+    | OpEvict off cnt => 0 <= off /\ -1 <= cnt
+    | OpEvictAll => True
+    end.
+
+  (* a world between two operations: nothing pending, no foreign lock *)
+  Definition Idle (w : world) : Prop := Inv (w_st w) /\ w_pending w = [] /\ w_held w = [].
+
+  (* what one read op delivers *)
+  Definition read_ok (sor : list outcome) (off vsize : Z) (co : bool) (r : Z) (ub : list Z) : Prop :=
+    zlen ub = vsize
+    /\ (r = -1 \/ (0 <= r <= full off vsize /\ forall i, 0 <= i < r -> getz ub i = getz src (off + i)))
+    /\ (forall i, full off vsize <= i < vsize -> getz ub i = 170)
+    /\ (AllOk sor -> co = false -> r = full off vsize).
+
+  Definition result_ok (sor : list outcome) (o : op) (res : Z * list Z * list event) : Prop :=
+    match o with
+    | OpRead off vsize _ co _ => read_ok sor off vsize co (fst (fst res)) (snd (fst res))
+    | _ => True
+    end.
+
+  Lemma getz_repeat x n i : 0 <= i < Z.of_nat n -> getz (repeat x n) i = x.
+  Proof.
+    intros Hi. unfold getz. rewrite (nth_indep _ 0 x) by (rewrite repeat_length; lia). apply nth_repeat'.
+  Qed.
+
+  Lemma drain_aux_frame ps : forall w,
+    w_ubuf (drain_aux w ps) = w_ubuf w /\ w_sor (drain_aux w ps) = w_sor w.
+  Proof.
+    induction ps as [| [o d] t IH]; intros w; cbn [drain_aux]; [split; reflexivity |].
+    destruct (IH (set_st (snd (do_pwritev2 w o d))
+                 (mkStore (s_actual (w_st (snd (do_pwritev2 w o d)))) (s_filled (w_st (snd (do_pwritev2 w o d))))
+                          (s_media (w_st (snd (do_pwritev2 w o d)))) (s_td (w_st (snd (do_pwritev2 w o d))))
+                          (s_refilling (w_st (snd (do_pwritev2 w o d))) - 1)))) as [I1 I2].
+    rewrite I1, I2. unfold set_st. cbn [w_ubuf w_sor].
+    destruct (do_pwritev2_fields w o d) as (_ & Hs & Hu & _). cbv zeta in *. split; assumption.
+  Qed.
+
+  Lemma run_op_spec w o :
+    Idle w -> op_ok o ->
+    match run_op src cfg w o with
+    | (res, w') => Idle w' /\ s_actual (w_st w) <= s_actual (w_st w') /\ result_ok (w_sor w) o res
+                   /\ (AllOk (w_sor w) -> AllOk (w_sor w'))
+    end.
+  Proof.
+    intros (Hinv & Hpend & Hheld) Hok. destruct o as [off vsize held co sync | off cnt |]; cbn [run_op op_ok] in *.
+    - destruct Hok as (Hoff & Hvs & Hh). subst held. cbn [w_st w_sor w_wor].
+      set (w1 := mkW (w_st w) (w_sor w) (w_wor w) (repeat 170 (Z.to_nat vsize)) [] [] []).
+      assert (HG1 : Good w1).
+      { unfold Good, w1. cbn [w_st w_held]. split; [exact Hinv |]. split; [intros ? ? [] | reflexivity]. }
+      assert (Hub1 : zlen (w_ubuf w1) = vsize) by (unfold w1; cbn [w_ubuf]; rewrite zlen_repeat; lia).
+      pose proof (preadv2_spec co sync w1 off vsize HG1 Hub1 Hoff) as Hp.
+      destruct (preadv2 src cfg co sync w1 off vsize) as [r w2].
+      destruct Hp as (R1 & R2 & R3 & R4 & R5 & R6 & R7).
+      assert (HG2 : Good (add_log w2 (EvRet r))) by exact R1.
+      destruct (drain_spec _ HG2) as [(D1 & D2 & D3) D4].
+      destruct (drain_aux_frame (w_pending (add_log w2 (EvRet r))) (add_log w2 (EvRet r))) as [F1 F2].
+      assert (Hub3 : w_ubuf (drain (add_log w2 (EvRet r))) = w_ubuf w2) by (unfold drain; cbn [w_ubuf]; exact F1).
+      assert (Hsor3 : w_sor (drain (add_log w2 (EvRet r))) = w_sor w2) by (unfold drain; cbn [w_sor]; exact F2).
+      cbn [fst snd w_st w_sor].
+      split; [unfold Idle; cbn [w_st w_pending w_held]; split; [exact D1 | split; reflexivity] |].
+      split; [rewrite D4; unfold add_log; cbn [w_st]; exact R3 |].
+      split.
+      + unfold result_ok, read_ok. cbn [fst snd]. rewrite Hub3.
+        split; [now rewrite R2 |]. split; [| split].
+        * destruct R5 as [R5 | [R5 Hag]]; [now left | right]. split; [exact R5 |].
+          intros i Hi. rewrite Hag by lia. f_equal. lia.
+        * intros i Hi. rewrite R4 by lia. unfold w1. cbn [w_ubuf]. apply getz_repeat. unfold full in Hi. lia.
+        * exact R6.
+      + rewrite Hsor3. exact R7.
+    - destruct Hok as [Hoff Hcnt].
+      set (w0 := mkW (w_st w) (w_sor w) (w_wor w) [] [] [] []).
+      destruct (evict_inv w0 off cnt Hinv Hoff Hcnt) as (E1 & E2 & E3 & E4).
+      cbn [fst snd]. split; [unfold Idle; split; [exact E1 | split; assumption] |].
+      split; [rewrite E2; unfold w0; cbn [w_st]; lia |]. split; [exact I |].
+      unfold evict. destruct (cnt =? -1); cbn [add_log set_st w_sor w0]; tauto.
+    - set (w0 := mkW (w_st w) (w_sor w) (w_wor w) [] [] [] []).
+      destruct (evict_all_inv w0 Hinv) as (E1 & E2 & E3 & E4).
+      cbn [fst snd]. split; [unfold Idle; split; [exact E1 | split; assumption] |].
+      split; [rewrite E2; unfold w0; cbn [w_st]; lia |]. split; [exact I |].
+      unfold evict_all, evict. cbn [Z.eqb add_log set_st w_sor w0]. tauto.
+  Qed.
+
+  (* all results of a run: each read is correct for the oracle suffix it started with *)
+  Fixpoint results_ok (w : world) (ops : list op) : Prop :=
+    match ops with
+    | [] => True
+    | o :: t => result_ok (w_sor w) o (fst (run_op src cfg w o)) /\ results_ok (snd (run_op src cfg w o)) t
+    end.
+
+  Lemma run_ops_spec ops : forall w,
+    Idle w -> Forall op_ok ops ->
+    Idle (snd (run_ops src cfg w ops)) /\ results_ok w ops
+    /\ s_actual (w_st w) <= s_actual (w_st (snd (run_ops src cfg w ops))).
+  Proof.
+    induction ops as [| o t IH]; intros w Hidle Hops; cbn [run_ops results_ok].
+    - cbn [snd]. split; [exact Hidle | split; [exact I | lia]].
+    - inversion Hops as [| ? ? Ho Ht]; subst.
+      pose proof (run_op_spec w o Hidle Ho) as H1.
+      destruct (run_op src cfg w o) as [res w1]. destruct H1 as (I1 & A1 & R1 & _).
+      destruct (IH w1 I1 Ht) as (I2 & R2 & A2).
+      destruct (run_ops src cfg w1 t) as [rs w2]. cbn [fst snd] in *.
+      split; [exact I2 |]. split; [split; assumption | lia].
+  Qed.
+End ReadProofs.
+
+(* ---------------------------------------------------------------- closed statements *)
+(* read_returns_source + failed_source_read_no_wrong_bytes, for every source content, page
+   size, refill unit (any integer >= 1, power of two or not), pool configuration, request,
+   flags and every script of source-read / media-write outcomes. *)
+Theorem read_returns_source_proof :
+  forall (src : list Z) (cfg : config), 1 <= c_page cfg -> 1 <= c_unit cfg ->
+  forall (co sync : bool) (w : world) (offset vsize : Z),
+    Good src cfg w -> zlen (w_ubuf w) = vsize -> 0 <= offset ->
+    match preadv2 src cfg co sync w offset vsize with
+    | (r, w') => ReadPost src cfg w offset vsize co r w'
+    end.
+Proof. intros src cfg Hp Hu co sync w offset vsize. intros; apply preadv2_spec; assumption. Qed.
+
+Theorem failed_source_read_no_wrong_bytes_proof :
+  forall (src : list Z) (cfg : config), 1 <= c_page cfg -> 1 <= c_unit cfg ->
+  forall (co sync : bool) (w : world) (offset vsize : Z),
+    Good src cfg w -> zlen (w_ubuf w) = vsize -> 0 <= offset ->
+    let r := fst (preadv2 src cfg co sync w offset vsize) in
+    let w' := snd (preadv2 src cfg co sync w offset vsize) in
+    (r = -1 \/ (0 <= r <= Z.max 0 (Z.min vsize (zlen src - offset))
+               /\ forall i, 0 <= i < r -> getz (w_ubuf w') i = getz src (offset + i)))
+    /\ Inv src cfg (w_st w') /\ Inv src cfg (w_st (drain w')).
+Proof.
+  intros src cfg Hp Hu co sync w offset vsize HG Hub Hoff.
+  pose proof (preadv2_spec src cfg Hu co sync w offset vsize HG Hub Hoff) as H.
+  destruct (preadv2 src cfg co sync w offset vsize) as [r w']. cbn [fst snd].
+  destruct H as (R1 & R2 & R3 & R4 & R5 & R6 & R7).
+  split.
+  - destruct R5 as [R5 | [R5 Hag]]; [now left | right]. split; [exact R5 |].
+    intros i Hi. rewrite Hag by lia. f_equal. lia.
+  - split; [now destruct R1 |]. now destruct (drain_spec src cfg w' R1) as [[D _] _].
+Qed.
+
+(* consistent_preserved: every operation (a read with arbitrary fault script including its
+   asynchronous write-back, a range eviction, a truncate, a whole-file eviction) maps an idle
+   consistent store to an idle consistent store, and every read of the sequence is correct. *)
+Theorem consistent_preserved_proof :
+  forall (src : list Z) (cfg : config), 1 <= c_page cfg -> 1 <= c_unit cfg -> zlen src <= OFF_MAX ->
+  forall (ops : list op) (w : world),
+    Idle src cfg w -> Forall op_ok ops ->
+    Idle src cfg (snd (run_ops src cfg w ops)) /\ results_ok src cfg w ops.
+Proof.
+  intros src cfg Hp Hu Hs ops w Hi Ho.
+  destruct (run_ops_spec src cfg Hu Hs ops w Hi Ho) as (H1 & H2 & _). split; assumption.
+Qed.
+
+(* a concrete non-trivial state meeting the hypotheses: 5-byte source, bytes 1..2 cached in a
+   3-byte media file whose byte 0 is garbage, refill unit 4, page 4 *)
+Definition ex_src : list Z := [11; 12; 13; 14; 15].
+Definition ex_cfg : config := mkCfg 4 4 false false 128 4294967295.
+Definition ex_world : world :=
+  mkW (mkStore 5 [(1, 3)] [99; 12; 13] true 0) [] [] [170; 170; 170; 170] [] [] [].
+
+Example ex_good : Good ex_src ex_cfg ex_world.
+Proof.
+  unfold Good, ex_world. cbn [w_st w_held]. split; [| split; [intros ? ? [] | reflexivity]].
+  unfold Inv. cbn [s_filled s_media s_actual]. split; [exists 0; cbn; lia |]. split; [| split; [cbn; lia | intros _; reflexivity]].
+  intros x (s & e & [Heq | []] & Hx). inversion Heq; subst. cbn [s_media s_actual s_filled].
+  assert (Hc : x = 1 \/ x = 2) by lia. destruct Hc; subst; cbn; repeat split; lia.
+Qed.
+
+Example ex_idle : Idle ex_src ex_cfg ex_world.
+Proof. destruct ex_good as (H & _ & _). split; [exact H | split; reflexivity]. Qed.
+
+(* and the model really reads through it: request [0,4) of the example refills [0,4) and
+   returns the four source bytes *)
+Example ex_read :
+  fst (preadv2 ex_src ex_cfg false false ex_world 0 4) = 4
+  /\ w_ubuf (snd (preadv2 ex_src ex_cfg false false ex_world 0 4)) = [11; 12; 13; 14].
+Proof. vm_compute. split; reflexivity. Qed.
